@@ -316,11 +316,6 @@ def compare(r0, r1, expect, atol=1e-8, tol_m=1e-10, gas=False, sections0=None, s
                 diffs.append((tbl, name, lab, x, y))
             return
         t = tol_of(col, x, m_row)
-        if t is not None and gas and col == "v_mean_m_per_s":
-            # get_branch_results_gas: when |p_from - p_to| <= 1e-8 + 1e-5 |p_to| (np.isclose) the mean pressure is taken
-            # to be p_from of the *declared* direction, so normfactor_mean, hence v_mean, depends on the orientation by
-            # up to 1e-5 relative - the code's own regularisation threshold
-            t += 1.1e-5 * abs(x)
         if t is not None and not (x == y or abs(x - y) <= t):
             diffs.append((tbl, name, lab, x, y))
 
